@@ -178,6 +178,110 @@ theorem removed_child_leaves_parent_unchanged (D : SlabID → DigestFn 4) (w : W
     remove_forgets_index w p i cx old x w' cx' h hx (by rw [hc]; rfl), hdet, H',
     detached_root_notification_is_noop D w' _ x H' hdet.1⟩
 
+/-! ### 4. Map parents: the slot hypothesis of `C11.detached_map_child_leaves_parent_unchanged`
+
+`hslot` of that lemma says: under the key the closure recorded, the former parent holds nothing, or
+something that is not a reference to the child.  The two lemmas below produce it from the detaching
+operation.  (Keys: the key handed back by `OrderedMap.Remove` and the key stored by
+`OrderedMap.Set` ARE the argument `k` in the model — `MapRemovedAt … rk = k`, `SetEffect` stores
+`(k, e)` — and two proper keys that are equal for the comparator `MKey.same` are equal, their
+digests being a function of `(size, pay)`; so no statement "up to `same`" is needed.) -/
+
+/-- After `OrderedMap.Remove p k` the key is absent: reading it (as the callback of a child that was
+    stored under it does, map.go:994-1024) answers `KeyNotFound`; the same for the key handed back. -/
+theorem mapRemove_key_absent (D : SlabID → DigestFn 4) (w : World) (p : SlabID) (k : MKey) (cx : Ctx)
+    (rk : MKey) (rv : Elem) (w' : World) (cx' : Ctx) (H : WorldOk' D w cx.ctr) (hh : HandleOk w p)
+    (hk : KeyOk w.T 4 (D p) k) (h : w.mapRemove p k cx = .ok (rk, rv, w', cx')) :
+    ∃ pm', w'.cont? p = some (.map pm') ∧ pm'.get w'.mcfg k = .error .keyNotFound ∧
+      pm'.get w'.mcfg rk = .error .keyNotFound := by
+  obtain ⟨H', _, hrem, _, _⟩ := C10W.worldOk'_mapRemove D w p k cx rk rv w' cx' H hh hk h
+  obtain ⟨m, m', rv0, hpm, hpm', hrk, ⟨A, B, hl, hl'⟩, _, _⟩ := hrem
+  have hT : w'.T = w.T := (mapRemove_domRel h).1
+  have hd := keysDistinct_of_worldOk' H hpm
+  rw [hl] at hd
+  have hno : ∀ q ∈ m'.toList, q.1 ≠ k := by rw [hl']; exact keysDistinct_zipper hd
+  have := get_absent_of_worldOk' H' hpm' (k := k) (by rw [hT]; exact hk) hno
+  exact ⟨m', hpm', this, by rw [hrk]; exact this⟩
+
+/-- After `OrderedMap.Set p k v` that OVERWRITES a child container `x` (the old value handed back
+    refers to the live `x`), the key is occupied by the new value, which is not a reference to `x`. -/
+theorem mapSet_key_reoccupied (D : SlabID → DigestFn 4) (w : World) (p : SlabID) (k : MKey) (v : WVal) (cx : Ctx)
+    (o : Elem) (w' : World) (cx' : Ctx) (x : SlabID) (H : WorldOk' D w cx.ctr) (hh : HandleOk w p)
+    (hk : KeyOk w.T 4 (D p) k) (hv : WValOk w p (maxInlineMapValue w.T k.size) v)
+    (h : w.mapSet p k v cx = .ok (some o, w', cx')) (hx : o.pay = .ref x) (hc : (w.cont? x).isSome) :
+    ∃ pm' el, w'.cont? p = some (.map pm') ∧ pm'.get w'.mcfg k = .ok (k, el) ∧ el.pay ≠ .ref x := by
+  obtain ⟨H', _, hset, _, _⟩ := C10W.worldOk'_mapSet D w p k v cx (some o) w' cx' H hh hk hv h
+  obtain ⟨m, m', e, oldo, hpm, hpm', heff, hsome, hnone, _, _⟩ := hset
+  have hT : w'.T = w.T := (mapSet_domRel h).1
+  cases oldo with
+  | none => cases hnone rfl
+  | some o0 =>
+    obtain ⟨o', ho', hpay, hb⟩ := hsome o0 rfl
+    cases ho'
+    have hx0 : o0.pay = .ref x := by rw [← hpay]; exact hx
+    obtain ⟨c, hc'⟩ := Option.isSome_iff_exists.mp hc
+    have hdet := hb.detached hx0 hc'
+    rcases heff with ⟨hn, _⟩ | ⟨v0, A, B, _, _, hl'⟩
+    · cases hn
+    · have hmem : (k, e) ∈ m'.toList := by rw [hl']; simp
+      refine ⟨m', e, hpm', get_present_of_worldOk' H' hpm' (by rw [hT]; exact hk) hmem, fun hpe => ?_⟩
+      exact hdet.1.2 p (holds_map_of_mem hpm' hmem hpe)
+
+/-- `OrderedMap.Set` overwriting the child container `x` of the map `p` (current handle, valid
+    world, any new value `v` that may be stored):
+    (a) the key now holds the new value, not a reference to `x` (the slot hypothesis of
+        `C11.detached_map_child_leaves_parent_unchanged`);
+    (b) `x` is a detached root: live, referenced by nobody, standalone, same data, same value ID;
+    (c) the global invariant holds afterwards;
+    (d) every later notification from `x` changes no container, no index table and no storage
+        effect; at most the closure of `x` is cleared. -/
+theorem map_overwritten_child_leaves_parent_unchanged (D : SlabID → DigestFn 4) (w : World) (p : SlabID) (k : MKey)
+    (v : WVal) (cx : Ctx) (o : Elem) (w' : World) (cx' : Ctx) (x : SlabID) (c : Cont)
+    (H : WorldOk' D w cx.ctr) (hh : HandleOk w p)
+    (hk : KeyOk w.T 4 (D p) k) (hv : WValOk w p (maxInlineMapValue w.T k.size) v)
+    (h : w.mapSet p k v cx = .ok (some o, w', cx')) (hx : o.pay = .ref x) (hc : w.cont? x = some c) :
+    (∃ pm' el, w'.cont? p = some (.map pm') ∧ pm'.get w'.mcfg k = .ok (k, el) ∧ el.pay ≠ .ref x) ∧
+    (DetachedRoot w' x ∧ ∃ c', w'.cont? x = some c' ∧ c'.isInlined = false ∧ c'.vid = c.vid ∧
+      c'.storedElems = c.storedElems) ∧
+    WorldOk' D w' cx'.ctr ∧
+    (∀ fuel cx2 w2 cx2', notifyParent fuel w' x cx2 = .ok (w2, cx2') →
+      cx2' = cx2 ∧ (w2 = w' ∨ w2 = { w' with hinfo := AList.erase w'.hinfo x })) := by
+  have hslot := mapSet_key_reoccupied D w p k v cx o w' cx' x H hh hk hv h hx (by rw [hc]; rfl)
+  obtain ⟨H', _, hset, _, _⟩ := C10W.worldOk'_mapSet D w p k v cx (some o) w' cx' H hh hk hv h
+  obtain ⟨m, m', e, oldo, _, _, _, hsome, hnone, _, _⟩ := hset
+  cases oldo with
+  | none => cases hnone rfl
+  | some o0 =>
+    obtain ⟨o', ho', hpay, hb⟩ := hsome o0 rfl
+    cases ho'
+    have hdet := hb.detached (by rw [← hpay]; exact hx) hc
+    exact ⟨hslot, hdet, H', detached_root_notification_is_noop D w' _ x H' hdet.1⟩
+
+/-- `OrderedMap.Remove` of the child container `x` of the map `p` (current handle, valid world):
+    (a) the key is absent afterwards (the slot hypothesis of
+        `C11.detached_map_child_leaves_parent_unchanged`), and no value of `p` refers to `x`;
+    (b) `x` is a detached root: live, referenced by nobody, standalone, same data, same value ID;
+    (c) the global invariant holds afterwards;
+    (d) every later notification from `x` changes no container, no index table and no storage
+        effect; at most the closure of `x` is cleared. -/
+theorem map_removed_child_leaves_parent_unchanged (D : SlabID → DigestFn 4) (w : World) (p : SlabID) (k : MKey)
+    (cx : Ctx) (rk : MKey) (rv : Elem) (w' : World) (cx' : Ctx) (x : SlabID) (c : Cont)
+    (H : WorldOk' D w cx.ctr) (hh : HandleOk w p) (hk : KeyOk w.T 4 (D p) k)
+    (h : w.mapRemove p k cx = .ok (rk, rv, w', cx')) (hx : rv.pay = .ref x) (hc : w.cont? x = some c) :
+    (∃ pm', w'.cont? p = some (.map pm') ∧ pm'.get w'.mcfg k = .error .keyNotFound ∧
+      pm'.get w'.mcfg rk = .error .keyNotFound ∧ ∀ q ∈ pm'.toList, q.2.pay ≠ .ref x) ∧
+    (DetachedRoot w' x ∧ ∃ c', w'.cont? x = some c' ∧ c'.isInlined = false ∧ c'.vid = c.vid ∧
+      c'.storedElems = c.storedElems) ∧
+    WorldOk' D w' cx'.ctr ∧
+    (∀ fuel cx2 w2 cx2', notifyParent fuel w' x cx2 = .ok (w2, cx2') →
+      cx2' = cx2 ∧ (w2 = w' ∨ w2 = { w' with hinfo := AList.erase w'.hinfo x })) := by
+  obtain ⟨pm', hpm', hg1, hg2⟩ := mapRemove_key_absent D w p k cx rk rv w' cx' H hh hk h
+  obtain ⟨H', _, hrem, _, _⟩ := C10W.worldOk'_mapRemove D w p k cx rk rv w' cx' H hh hk h
+  obtain ⟨m, m', rv0, _, _, _, _, hpay, hb⟩ := hrem
+  have hdet := hb.detached (by rw [← hpay]; exact hx) hc
+  exact ⟨⟨pm', hpm', hg1, hg2, fun q hq hpe => hdet.1.2 p (holds_map_of_mem hpm' (k := q.1) hq hpe)⟩, hdet, H',
+    detached_root_notification_is_noop D w' _ x H' hdet.1⟩
+
 /-! ### Non-vacuity, run A (`AtreeProofs/World/C11Scenario.lean`, T = 256)
 
 Root array `R`; array `X` INLINED in slot 0 of `R` (one value); `Array.Set R 0 Y` overwrites `X` by
